@@ -335,7 +335,7 @@ func TestC11_Sessions(t *testing.T) {
 			w.p, w.rr = rr, rr
 		}
 		n := rapid.IntRange(2, 4).Draw(t, "nservers")
-		richURL, poolChange, badCookie := false, false, false
+		richURL, poolChange, badCookie, refusedAdd := false, false, false, false
 		for len(w.members) < n {
 			u := genURL(t, fmt.Sprintf("s%d", len(w.members)))
 			if _, dup := w.members[key(u)]; dup {
@@ -374,7 +374,28 @@ func TestC11_Sessions(t *testing.T) {
 		inPool := true
 		steps := rapid.IntRange(2, 14).Draw(t, "steps")
 		for i := 0; i < steps; i++ {
-			switch rapid.IntRange(0, 11).Draw(t, "op") {
+			switch rapid.IntRange(0, 12).Draw(t, "op") {
+			case 12: // a registration that is refused (invalid weight): the server is not in the pool, a cookie naming it is worth nothing
+				u := genURL(t, "refused")
+				if _, dup := w.members[key(u)]; dup || (knownExcluded("raw-semicolon") && strings.Contains(u.String(), ";")) {
+					break
+				}
+				sopts := []roundrobin.ServerOption{roundrobin.Weight(-1)}
+				if rapid.Bool().Draw(t, "validOptionFirst") {
+					sopts = []roundrobin.ServerOption{roundrobin.Weight(3), roundrobin.Weight(-1)}
+				}
+				var err error
+				if useRB && rapid.Bool().Draw(t, "refusedOnInner") {
+					err = w.rr.UpsertServer(u, sopts...)
+				} else {
+					err = w.p.UpsertServer(u, sopts...)
+				}
+				if err == nil {
+					w.fail("registering %s with weight -1 succeeded", u)
+				}
+				w.logf("refused-add(%s)", u)
+				refusedAdd = true
+				w.expectBalanced(&http.Cookie{Name: "sid", Value: w.cd.cv.Get(u)}, "a cookie naming a server whose registration was refused")
 			case 11: // S is taken out and registered again under the same address with other credentials / query
 				if !inPool || w.direct[key(S)] {
 					break
@@ -549,6 +570,9 @@ func TestC11_Sessions(t *testing.T) {
 		}
 		if badCookie {
 			cl = append(cl, "bad-cookie")
+		}
+		if refusedAdd {
+			cl = append(cl, "cookie-for-a-refused-registration")
 		}
 		if useRB {
 			cl = append(cl, "rebalancer")
